@@ -4,6 +4,7 @@
 mod broadcast;
 mod codec;
 mod handle;
+mod lazy;
 mod conn;
 mod port;
 mod robs_deque;
@@ -134,6 +135,7 @@ fn main() {
         "broadcast" => broadcast::run(seed, count, &extra, &mut out),
         "io" => io::run(seed, count, &extra, &mut out),
         "handle" => handle::run(seed, count, &extra, &mut out),
+        "lazy" => lazy::run(seed, count, &extra, &mut out),
         _ => {
             eprintln!("unknown component {comp}");
             std::process::exit(2);
